@@ -400,9 +400,11 @@ class RaopStream(Stream):
         finally:
             if takeover_release:
                 takeover_release()
-            if audio_file:
-                await audio_file.close()
-            await self.playback_manager.teardown()
+            try:
+                if audio_file:
+                    await audio_file.close()
+            finally:
+                await self.playback_manager.teardown()
 
 
 class RaopRemoteControl(RemoteControl):
